@@ -107,7 +107,12 @@ func isSync(t types.Type, name string) bool {
 	if _, ptr := t.(*types.Pointer); ptr {
 		return false
 	}
-	return n != nil && n.Obj().Pkg() != nil && n.Obj().Pkg().Path() == "sync" && n.Obj().Name() == name
+	if n == nil || n.Obj().Pkg() == nil || n.Obj().Pkg().Path() != "sync" {
+		return false
+	}
+	// a readers-writer lock is analysed as a mutex: a read lock is ordered and guards like the write lock (conservative
+	// for lock order; for the guard table a read lock suffices for reads only, which the table does not distinguish)
+	return n.Obj().Name() == name || (name == "Mutex" && n.Obj().Name() == "RWMutex")
 }
 
 func analysed(p *types.Package) bool {
@@ -370,7 +375,7 @@ func trackBools() {
 					for _, s := range x.Body.List {
 						if es, ok := s.(*ast.ExprStmt); ok {
 							if ce, ok := es.X.(*ast.CallExpr); ok {
-								if sel, ok := ce.Fun.(*ast.SelectorExpr); ok && (sel.Sel.Name == "Lock" || sel.Sel.Name == "Unlock") {
+								if sel, ok := ce.Fun.(*ast.SelectorExpr); ok && (sel.Sel.Name == "Lock" || sel.Sel.Name == "Unlock" || sel.Sel.Name == "RLock" || sel.Sel.Name == "RUnlock") {
 									guards = true
 								}
 							}
